@@ -277,23 +277,28 @@ Definition compress_file (w : world) (n : bytes) : bool * world :=
     p_remove w7 n
   end.
 
-Fixpoint cleanup_loop (w : world) (files : list bytes) (index log_limit total : nat) : bool * world :=
+(* the loop over the listing.  cur = o_current: with a direct naming the current output file *)
+Fixpoint cleanup_loop (w : world) (files : list bytes) (index log_limit total : nat) (cur : option bytes)
+  : bool * world :=
   match files with
   | [] => (true, w)
   | n :: r =>
-    if Nat.leb total index then
+    (* the current output file is never touched, wherever the listing puts it
+       (its name sorts behind older files e.g. after the clock was set back): continue; the index counts it *)
+    if match cur with Some p => beq p n | None => false end then cleanup_loop w r (S index) log_limit total cur
+    else if Nat.leb total index then
       let '(ok, w1) := p_remove w n in
-      if ok then cleanup_loop w1 r (S index) log_limit total else (false, w1)
+      if ok then cleanup_loop w1 r (S index) log_limit total cur else (false, w1)
     else if Nat.leb log_limit index then
       match extension n with
-      | Some e => if beq e gz_sfx then cleanup_loop w r (S index) log_limit total
+      | Some e => if beq e gz_sfx then cleanup_loop w r (S index) log_limit total cur
                   else let '(ok, w1) := compress_file w n in
-                       if ok then cleanup_loop w1 r (S index) log_limit total else (false, w1)
+                       if ok then cleanup_loop w1 r (S index) log_limit total cur else (false, w1)
       | None => (* a log file without suffix has no extension *)
                 let '(ok, w1) := compress_file w n in
-                if ok then cleanup_loop w1 r (S index) log_limit total else (false, w1)
+                if ok then cleanup_loop w1 r (S index) log_limit total cur else (false, w1)
       end
-    else cleanup_loop w r (S index) log_limit total
+    else cleanup_loop w r (S index) log_limit total cur
   end.
 
 (* archives whose original is listed too (an interrupted compression): removed before the cleanup proper *)
@@ -306,13 +311,16 @@ Fixpoint remove_redundant (w : world) (red files : list bytes) : bool * world * 
               if ok then remove_redundant w1 r (filter (fun m => negb (beq m n)) files) else (false, w1, files)
   end.
 
-(* remove_or_compress_too_old_logfiles_impl *)
-Definition cleanup_impl (c : config) (w : world) (k : cleanup) (flt : infix_filter) (direct : bool) : res unit * world :=
+(* remove_or_compress_too_old_logfiles_impl.  cur = o_current: Some (the current output file) with a direct naming
+   (there the current output file is one of the listed files), None otherwise *)
+Definition cleanup_impl (c : config) (w : world) (k : cleanup) (flt : infix_filter) (cur : option bytes)
+  : res unit * world :=
   match k with
   | KNever => (Ok tt, w)
   | _ =>
     let '(ll, cl) := match k with KLog a => (a, O) | KGz b => (O, b) | KLogGz a b => (a, b) | KNever => (O, O) end in
-    let ll := if direct && Nat.eqb ll 0 then 1%nat else ll in
+    (* we must not clean up the current output file: o_current.is_some() && log_limit == 0 *)
+    let ll := if match cur with Some _ => true | None => false end && Nat.eqb ll 0 then 1%nat else ll in
     let '(fl, w1) := tick w in                                        (* read_dir(..)? *)
     if fl then (Err, w1) else
     match list_log_gz (woff w1) (c_spec c) (fixed_of c w1) (wfs w1) flt with
@@ -320,26 +328,28 @@ Definition cleanup_impl (c : config) (w : world) (k : cleanup) (flt : infix_filt
     | Some files =>
       let '(ok0, w1', files') := remove_redundant w1 (redundant_gz files) files in
       if negb ok0 then (Err, w1') else
-      let '(ok, w2) := cleanup_loop w1' files' 0 ll (ll + cl) in
+      let '(ok, w2) := cleanup_loop w1' files' 0 ll (ll + cl) cur in
       ((if ok then Ok tt else Err), w2)
     end
   end.
 
 (* remove_or_compress_too_old_logfiles: with a background thread a request is sent to it.  The correspondence
    check lets the thread finish each request before the next operation (schedule points), so the request is
-   worked off here; its result is ignored by the code, and a panic kills the thread for good (wacts = 1) *)
-Definition cleanup_or_queue (c : config) (w : world) (bg : bool) (k : cleanup) (flt : infix_filter) (direct : bool)
+   worked off here; its result is ignored by the code, and a panic kills the thread for good (wacts = 1).
+   cur = o_current is the payload of the request, MessageToCleanupThread::Act(Option<PathBuf>): as the request is
+   worked off at once, the queue itself (wacts) carries no payload *)
+Definition cleanup_or_queue (c : config) (w : world) (bg : bool) (k : cleanup) (flt : infix_filter) (cur : option bytes)
   : res unit * world :=
   if bg then
     match k with
     | KNever => (Ok tt, w)
     | _ => if Nat.eqb (wacts w) 1 then (Ok tt, w) else
-           match cleanup_impl c w k flt direct with
+           match cleanup_impl c w k flt cur with
            | (Panic, w1) => (Ok tt, set_acts w1 1)
            | (_, w1) => (Ok tt, w1)
            end
     end
-  else cleanup_impl c w k flt direct.
+  else cleanup_impl c w k flt cur.
 
 (* ------------------------------------------------------------------ naming helpers *)
 (* the listing functions call read_dir(..)?: one oracle entry, a fault is an error that the caller hands on *)
@@ -529,7 +539,8 @@ Definition initialize (c : config) (w : world) : res inner * world :=
     bind (roll_new w2 crit (c_append c) path) (fun roll w3 =>
     bind (match k with
           | KNever => (Ok tt, w3)
-          | _ => cleanup_impl c w3 k (ns_filter ns) (naming_writes_direct nam)
+          | _ => (* o_current = if writes_direct { Some(path) } else { None }: the file just opened *)
+                 cleanup_impl c w3 k (ns_filter ns) (if naming_writes_direct nam then Some path else None)
           end) (fun _ w4 =>
     let bg := match k with KNever => false | _ => c_bg c end in
     (Ok (Active (Some {| rs_naming := ns; rs_roll := roll; rs_cleanup := k; rs_bg := bg |}) wr path),
@@ -577,7 +588,9 @@ Definition mount_next (c : config) (w : world) (st : inner) (force : bool) : res
           let w2b := if okf then w2a else report EFlush w2a in
           let w3 := w_drop w2b wra in
           let roll' := reset_size_and_date w3 (rs_roll rs) path' in
-          let '(rc, w4) := cleanup_or_queue c w3 (rs_bg rs) (rs_cleanup rs) (ns_filter ns1) (ns_writes_direct ns1) in
+          let '(rc, w4) := (* o_current: with a direct naming the NEW file *)
+            cleanup_or_queue c w3 (rs_bg rs) (rs_cleanup rs) (ns_filter ns1)
+                             (if ns_writes_direct ns1 then Some path' else None) in
           let st' := Active (Some {| rs_naming := ns1; rs_roll := roll'; rs_cleanup := rs_cleanup rs; rs_bg := rs_bg rs |}) wr' path' in
           (match rc with Ok _ => Ok tt | Err => Err | Panic => Panic end, w4, st')
         | (Err, w2) => (Err, w2, with_ns ns1)
